@@ -103,6 +103,7 @@ func cmdFunc(args []string) {
 				}
 			}
 		}
+		extraModelTerms = res.Shows
 		dischargeAll(res, dir, *timeout, 0, 6, inputVars(res))
 		np, nf := 0, 0
 		for _, o := range res.Obls {
@@ -128,7 +129,7 @@ func cmdFunc(args []string) {
 						for _, k := range ks {
 							fmt.Fprintf(&sb, " %s=%s", k, o.Model[k])
 						}
-						fmt.Printf("            model:%s\n", truncate(sb.String(), 600))
+						fmt.Printf("            model:%s\n", truncate(sb.String(), 20000))
 					}
 					if o.Note != "" {
 						fmt.Printf("            note: %s\n", truncate(o.Note, 300))
